@@ -739,19 +739,19 @@ theorem anderson_provider_reach (c : AndersonCfg α) (n : Nat) :
     simp only [Anderson.changedGamma, (changedGamma_selector _ _ _).2, hr]
     exact AReach.reset h
 
-/-- **Output relation to the C10 least-squares theorem.**  After any history of provider calls
-    (`AReach`), with a non-degenerate new residual difference (`norm_q ≠ 0` in `add_column`; at the
-    excluded point the real code divides by zero — C10's known finding): `apply` succeeds, moves to
-    the next reachable history (window of residual differences `aaNextW … (pₖ − p_last)`, function
-    values `… x̂ₖ`), and
+/-- **Output relation to the C10 least-squares theorem.**  After ANY history of provider calls
+    (`AReach`) and for ANY data — a repeated residual `pₖ = p_last` and linearly dependent residual
+    differences included (the repaired `add_column` stores a zero column there): `apply` succeeds,
+    moves to the next reachable history (window of residual differences `aaNextW … (pₖ − p_last)`,
+    function values `… x̂ₖ`), and
         `q = Σᵢ αᵢ gᵢ − xₖ`,  `Σᵢ αᵢ = 1`,
-    over the last `K+1` function values `gᵢ` (the `x̂`'s), `αᵢ` the telescoped least-squares
-    coefficients `γ_LS` of C10. -/
-theorem anderson_apply_affine (c : AndersonCfg α) (hg : GivensOK c.giv) {n : Nat}
+    over the last `K+1` function values `gᵢ` (the `x̂`'s), `αᵢ` the telescoped coefficients `γ_LS` of
+    C10 (`anderson_apply_least_squares`). -/
+theorem anderson_apply_affine (c : AndersonCfg α) (hs : SqrtLaw α) (hsn : SqrtNonneg α)
+    (hg : GivensOK c.giv) {n : Nat}
     (hm : 0 < min n c.memory) {a : AA α} {W gs : List (ℕ → α)} {rl : ℕ → α}
     (h : AReach c.fuel c.giv c.inf c.memory c.minDivFac n a W gs rl) (γ : α) (x xh p g q0 : Vec α)
-    (hx : x.length = n)
-    (hnz : (addCore c.fuel (a.qr1 c.giv) (fun j => Anderson.fn p j - readV a.rLast j)).2.2.1 ≠ 0) :
+    (hx : x.length = n) :
     ∃ st' q, Anderson.apply c a γ x xh p g q0 = .done st' true q ∧
       AReach c.fuel c.giv c.inf c.memory c.minDivFac n st'
         (aaNextW (min n c.memory) W rl (Anderson.fn p)) (aaNextG (min n c.memory) W gs (Anderson.fn xh))
@@ -762,22 +762,59 @@ theorem anderson_apply_affine (c : AndersonCfg α) (hg : GivensOK c.giv) {n : Na
         ∑ i ∈ range ((aaNextW (min n c.memory) W rl (Anderson.fn p)).length + 1),
           aaCoef (readV st'.gamLS) (aaNextW (min n c.memory) W rl (Anderson.fn p)).length i *
             winFn (aaNextG (min n c.memory) W gs (Anderson.fn xh)) i j - vget x j := by
-  have hi := anderson_history hg hm h
+  have hi := anderson_history hs hsn hg hm h
   obtain ⟨q, hq, hc⟩ := anderson_q_component c a hi.init γ x xh p g q0 (by rw [hi.an]; exact hx)
-  obtain ⟨hsum, haff⟩ := anderson_output_affine hg hm h (Anderson.fn xh) (Anderson.fn p) hnz
-  refine ⟨_, q, hq, AReach.compute _ _ h hnz, hsum, fun j hj => ?_⟩
+  obtain ⟨hsum, haff⟩ := anderson_output_affine hs hsn hg hm h (Anderson.fn xh) (Anderson.fn p)
+  refine ⟨_, q, hq, AReach.compute _ _ h, hsum, fun j hj => ?_⟩
   rw [hc j (by rw [hi.an]; exact hj), haff j hj]
 
-/-- … and those coefficients are least-squares optimal: `γ_LS` minimises `‖ΔR·γ − pₖ‖²` over the
-    window of residual differences (no pivot below `max_eig·min_div_fac`). -/
-theorem anderson_apply_least_squares (c : AndersonCfg α) (hs : SqrtLaw α) (hg : GivensOK c.giv)
+/-- … and those coefficients are the least-squares coefficients of C10, after EVERY history and
+    for ANY `x̂ₖ`, `pₖ` (`min_div_fac ≥ 0`; `Props.C10.anderson_gamma_least_squares_every` at
+    `g = x̂ₖ`, `r = pₖ`): with `tol = max_eig·min_div_fac`, the components of `γ_LS` whose pivot is not
+    above `tol` are 0 (in particular those of repeated / dependent residual differences), for every
+    other pivot `k` the residual `ΔR γ − pₖ` is orthogonal to `q_k`, and `γ_LS` minimises
+    `‖ΔR′ γ − pₖ‖²` over the deflated window `ΔR′`. -/
+theorem anderson_apply_least_squares (c : AndersonCfg α) (hs : SqrtLaw α) (hsn : SqrtNonneg α)
+    (hg : GivensOK0 c.giv) (hmdf : 0 ≤ c.minDivFac)
     {n : Nat} (hm : 0 < min n c.memory) {a : AA α} {W gs : List (ℕ → α)} {rl : ℕ → α}
-    (h : AReach c.fuel c.giv c.inf c.memory c.minDivFac n a W gs rl) (xh p : Vec α)
-    (hnz : (addCore c.fuel (a.qr1 c.giv) (fun j => Anderson.fn p j - readV a.rLast j)).2.2.1 ≠ 0)
+    (h : AReach c.fuel c.giv c.inf c.memory c.minDivFac n a W gs rl) (xh p : Vec α) :
+    (∀ k < (aaNextW (min n c.memory) W rl (Anderson.fn p)).length,
+      |(a.qrNext c.fuel c.giv (Anderson.fn p)).getR k k|
+          ≤ aaTol (a.qrNext c.fuel c.giv (Anderson.fn p)).maxEig a.minDivFac →
+        readV (a.computeCore c.fuel c.giv (Anderson.fn xh) (Anderson.fn p)).1.gamLS k = 0) ∧
+    (∀ k < (aaNextW (min n c.memory) W rl (Anderson.fn p)).length,
+      ¬ |(a.qrNext c.fuel c.giv (Anderson.fn p)).getR k k|
+          ≤ aaTol (a.qrNext c.fuel c.giv (Anderson.fn p)).maxEig a.minDivFac →
+        ∑ j ∈ range n, (a.qrNext c.fuel c.giv (Anderson.fn p)).Q.get j k *
+          (∑ i ∈ range (aaNextW (min n c.memory) W rl (Anderson.fn p)).length,
+            winFn (aaNextW (min n c.memory) W rl (Anderson.fn p)) i j *
+              readV (a.computeCore c.fuel c.giv (Anderson.fn xh) (Anderson.fn p)).1.gamLS i
+              - Anderson.fn p j) = 0) ∧
+    ∀ z : ℕ → α,
+      ∑ j ∈ range n, (∑ k ∈ range (aaNextW (min n c.memory) W rl (Anderson.fn p)).length,
+          deflated (a.qrNext c.fuel c.giv (Anderson.fn p))
+              (aaTol (a.qrNext c.fuel c.giv (Anderson.fn p)).maxEig a.minDivFac) k j *
+            readV (a.computeCore c.fuel c.giv (Anderson.fn xh) (Anderson.fn p)).1.gamLS k
+            - Anderson.fn p j) ^ 2 ≤
+      ∑ j ∈ range n, (∑ k ∈ range (aaNextW (min n c.memory) W rl (Anderson.fn p)).length,
+          deflated (a.qrNext c.fuel c.giv (Anderson.fn p))
+              (aaTol (a.qrNext c.fuel c.giv (Anderson.fn p)).maxEig a.minDivFac) k j * z k
+            - Anderson.fn p j) ^ 2 :=
+  anderson_gamma_least_squares_every hs hsn hg hmdf hm h (Anderson.fn xh) (Anderson.fn p)
+
+/-- The plain least-squares statement: along histories whose residual differences `pₖ − p_last` are
+    linearly independent of the ones staying in the window (`AReachI`; nonzero rescaling factors) and
+    with no pivot skipped, `γ_LS` minimises `‖ΔR·γ − pₖ‖²` over the window itself. -/
+theorem anderson_apply_least_squares_no_truncation (c : AndersonCfg α) (hs : SqrtLaw α)
+    (hsn : SqrtNonneg α) (hg : GivensOK c.giv)
+    {n : Nat} (hm : 0 < min n c.memory) {a : AA α} {W gs : List (ℕ → α)} {rl : ℕ → α}
+    (h : AReachI c.fuel c.giv c.inf c.memory c.minDivFac n a W gs rl) (xh p : Vec α)
+    (hind : ¬ ∃ z : ℕ → α, ∀ j < n, Anderson.fn p j - rl j =
+      ∑ k ∈ range (if W.length = min n c.memory then W.tail else W).length,
+        winFn (if W.length = min n c.memory then W.tail else W) k j * z k)
     (hp : ∀ k < (aaNextW (min n c.memory) W rl (Anderson.fn p)).length,
       ¬ |(a.qrNext c.fuel c.giv (Anderson.fn p)).getR k k|
-          < aaTol (a.qrNext c.fuel c.giv (Anderson.fn p)).maxEig a.minDivFac ∧
-        (a.qrNext c.fuel c.giv (Anderson.fn p)).getR k k ≠ 0) :
+          ≤ aaTol (a.qrNext c.fuel c.giv (Anderson.fn p)).maxEig a.minDivFac) :
     ∀ z : ℕ → α,
       ∑ j ∈ range n, (∑ k ∈ range (aaNextW (min n c.memory) W rl (Anderson.fn p)).length,
           winFn (aaNextW (min n c.memory) W rl (Anderson.fn p)) k j *
@@ -785,7 +822,7 @@ theorem anderson_apply_least_squares (c : AndersonCfg α) (hs : SqrtLaw α) (hg 
             - Anderson.fn p j) ^ 2 ≤
       ∑ j ∈ range n, (∑ k ∈ range (aaNextW (min n c.memory) W rl (Anderson.fn p)).length,
           winFn (aaNextW (min n c.memory) W rl (Anderson.fn p)) k j * z k - Anderson.fn p j) ^ 2 :=
-  anderson_gamma_least_squares hs hg hm h (Anderson.fn xh) (Anderson.fn p) hnz hp
+  anderson_gamma_least_squares_no_truncation hs hsn hg hm h (Anderson.fn xh) (Anderson.fn p) hind hp
 
 end anderson
 
@@ -919,8 +956,7 @@ def cA : AndersonCfg ℚ :=
 def aA : C10.AA ℚ := Anderson.init cA 3 (Anderson.fresh cA) [] [] 1 [0, 0, 0] [1, 2, 3] [1, 0, 0] []
 
 example : outOf (Anderson.apply cA (Anderson.fresh cA) 1 [0, 0, 0] [1, 2, 3] [1, 0, 0] [] []) = none ∧
-    aA.initialized = true ∧ 0 < min 3 cA.memory ∧
-    (C10.addCore cA.fuel (aA.qr1 cA.giv) (fun j => Anderson.fn [0, 0, 0] j - C10.readV aA.rLast j)).2.2.1 ≠ 0 := by
+    aA.initialized = true ∧ 0 < min 3 cA.memory ∧ 0 ≤ cA.minDivFac := by
   decide +kernel
 
 example : Props.C10.AReach cA.fuel cA.giv cA.inf cA.memory cA.minDivFac 3 aA [] [Anderson.fn [1, 2, 3]]
@@ -931,8 +967,35 @@ example : Props.C10.AReach cA.fuel cA.giv cA.inf cA.memory cA.minDivFac 3 aA [] 
 example : outOf (Anderson.apply cA aA 1 [1, 1, 1] [2, 2, 2] [0, 0, 0] [] []) = some (true, [1, 1, 1]) := by
   decide +kernel
 
-/-- the Givens contract of `anderson_apply_affine` is satisfiable (over ℝ, `Props.C10.givR_ok`) -/
-example : Alpaqa.C10.GivensOK Props.C10.givR := Props.C10.givR_ok
+/-- **the formerly excluded point** `pₖ = p_last` (residual difference 0, `norm_q = 0`): the repaired
+    `add_column` stores a zero column, `solve_col` skips the zero pivot (`γ_LS = 0`), and the provider
+    returns the finite direction `q = x̂ₖ − xₖ` — twice in a row, so also with a dependent column
+    already in the window. -/
+example :
+    (match Anderson.apply cA aA 1 [1, 1, 1] [2, 2, 2] [1, 0, 0] [] [] with
+     | .done st ok q => some (ok, q, (List.range 1).map (C10.readV st.gamLS),
+         outOf (Anderson.apply cA st 1 [0, 1, 0] [3, 1, 2] [1, 0, 0] [] []))
+     | .threw => none) = some (true, [1, 1, 1], [0], some (true, [3, 0, 2])) := by
+  decide +kernel
+
+/-- Every hypothesis of `anderson_apply_affine` / `anderson_apply_least_squares` at once, over ℝ with
+    `Real.sqrt` and Eigen's Givens rotation (`Props.C10.gE`), at the formerly excluded point: the
+    history `initialize(x̂₀, p₀)` followed by `apply` with `pₖ = p₀`. -/
+noncomputable def cR : AndersonCfg ℝ :=
+  { memory := 2, minDivFac := 1/1000, rescale := true, inf := 1000, fuel := 8, giv := Props.C10.gE }
+
+local instance instPowLikeReal : PowLike ℝ := ⟨fun x _ => x⟩
+local instance instHasNaNReal : HasNaN ℝ := ⟨0⟩
+
+example :=
+  anderson_apply_affine cR Props.C10.sqrtLaw_real Props.C10.sqrtNonneg_real Props.C10.gE_ok (n := 3)
+    (by simp [cR]) ((anderson_provider_reach cR 3).1 (Anderson.fresh cR) [] [] 1 [0, 0, 0] [1, 2, 3] [1, 0, 0] [])
+    1 [1, 1, 1] [2, 2, 2] [1, 0, 0] [] [] rfl
+
+example := anderson_apply_least_squares cR Props.C10.sqrtLaw_real Props.C10.sqrtNonneg_real
+  Props.C10.gE_ok0 (by norm_num [cR]) (n := 3) (by simp [cR])
+  ((anderson_provider_reach cR 3).1 (Anderson.fresh cR) [] [] 1 [0, 0, 0] [1, 2, 3] [1, 0, 0] [])
+  [2, 2, 2] [1, 0, 0]
 
 end examples
 
